@@ -34,7 +34,7 @@ def replay_kani(cex):
         return None
     while len(vals) < 2:
         vals.append(0)
-    body = snip.replace('{P}', str(P)).replace('{0}', str(vals[0])).replace('{1}', str(vals[1]))
+    body = snip.replace('{P}', str(P)).replace('{0}', str(vals[0])).replace('{1}', str(vals[1])).replace('{{}}', '{}')
     prog = ('use rust_dsymbols::geometry::prime_residue_classes::PrimeResidueClass;\nfn main() {\n    let ok: bool;\n    %s\n'
             '    println!("{}", if ok { "REPLAY: the real code satisfies the clause on this input" } else { "REPLAY: the real code VIOLATES the clause on this input" });\n}\n' % body)
     work = tempfile.mkdtemp(prefix='verif-scratch.', dir=os.environ.get('TMPDIR', '/var/tmp'))
